@@ -2056,6 +2056,31 @@ impl<'a> From<GroupEntry<'a>> for Group<'a> {
   }
 }
 
+/// Whether formatted CDDL text contains a comment (a ';' outside text and byte
+/// string literals)
+#[cfg(feature = "ast-comments")]
+fn contains_comment(s: &str) -> bool {
+  let mut quote: Option<char> = None;
+  let mut chars = s.chars();
+  while let Some(c) = chars.next() {
+    match quote {
+      Some(q) => {
+        if c == '\\' {
+          chars.next();
+        } else if c == q {
+          quote = None;
+        }
+      }
+      None => match c {
+        '"' | '\'' => quote = Some(c),
+        ';' => return true,
+        _ => {}
+      },
+    }
+  }
+  false
+}
+
 impl fmt::Display for Group<'_> {
   fn fmt(&self, f: &mut fmt::Formatter) -> fmt::Result {
     let mut group_str = String::new();
@@ -2063,10 +2088,13 @@ impl fmt::Display for Group<'_> {
     for (idx, gc) in self.group_choices.iter().enumerate() {
       let mut gc_str = gc.to_string();
 
+      // joining the lines of a short choice is only safe when no comment is
+      // among them: a comment ends at its line break
       #[cfg(feature = "ast-comments")]
       if self.group_choices.len() > 2
         && gc.group_entries.len() <= 3
         && !gc.has_entries_with_comments_before_comma()
+        && !contains_comment(&gc_str)
       {
         gc_str = gc_str.replace('\n', "");
       }
